@@ -321,6 +321,39 @@ func LeanSource() string {
 	}
 	emit("ifaceTableLit", it)
 	emit("enumTableLit", et)
+	// the Go field names once more, as byte strings in the form the kernel compares cheaply (length,
+	// big-endian value; Mtv.Schema.BStr) — C13 compares them with the schema's parameter names. Same
+	// chunks, same order, same fields (those the codec ignores left out) as `registryN` above.
+	for k := 0; k < n; k++ {
+		fmt.Fprintf(&b, "def fieldNames%d : List (Nat × List (Nat × Nat)) := [\n", k)
+		end := (k + 1) * chunk
+		if end > len(all) {
+			end = len(all)
+		}
+		for j := k * chunk; j < end; j++ {
+			var ns []string
+			for _, f := range all[j].Fields {
+				if f.Ignore {
+					continue
+				}
+				ns = append(ns, fmt.Sprintf("(%d, 0x%x)", len(f.Name), []byte(f.Name)))
+			}
+			sep := ","
+			if j == end-1 {
+				sep = ""
+			}
+			fmt.Fprintf(&b, "  (0x%08x, [%s])%s\n", all[j].ID, strings.Join(ns, ", "), sep)
+		}
+		b.WriteString("]\n\n")
+	}
+	b.WriteString("def fieldNamesChunks : List (List (Nat × List (Nat × Nat))) := [")
+	for k := 0; k < n; k++ {
+		if k > 0 {
+			b.WriteString(", ")
+		}
+		fmt.Fprintf(&b, "fieldNames%d", k)
+	}
+	b.WriteString("]\n\ndef fieldNames : List (Nat × List (Nat × Nat)) := fieldNamesChunks.flatten\n\n")
 	fmt.Fprintf(&b, "def registryChunkCount : Nat := %d\n\nend Mtv.Gen\n", n)
 	return b.String()
 }
